@@ -9,23 +9,30 @@
    snapshot list, placed in that binding's queue - and none for other bindings.  A crontab
    keeps firing while at least one binding is registered for it and stops when the last
    one is removed; registering the same crontab any number of times never produces
-   duplicate firings." *)
+   duplicate firings."
+
+   A crontab is the string written in the binding's configuration ([ct], bytes).  "A
+   binding with that crontab" is a binding whose configured string is that string; the
+   text does not identify different spellings, and this Spec does not either: what it
+   demands end to end (check_round) is spelling-agnostic - however the crontab is written,
+   an enabled binding whose crontab is registered gets exactly one task per round of
+   firings. *)
 From Verif Require Import Common C11_Model.
 
 (* ---- the abstract registry: the set of (crontab, id) pairs added and not removed ---- *)
-Definition pair_eqb (p q : N * N) : bool := N.eqb (fst p) (fst q) && N.eqb (snd p) (snd q).
-Definition reg_add (p : N * N) (l : list (N * N)) : list (N * N) :=
+Definition pair_eqb (p q : ct * N) : bool := ct_eqb (fst p) (fst q) && N.eqb (snd p) (snd q).
+Definition reg_add (p : ct * N) (l : list (ct * N)) : list (ct * N) :=
   if existsb (pair_eqb p) l then l else l ++ [p].
-Definition reg_remove (p : N * N) (l : list (N * N)) : list (N * N) :=
+Definition reg_remove (p : ct * N) (l : list (ct * N)) : list (ct * N) :=
   filter (fun q => negb (pair_eqb q p)) l.
-Definition reg_step (l : list (N * N)) (o : smop) : list (N * N) :=
+Definition reg_step (l : list (ct * N)) (o : smop) : list (ct * N) :=
   match o with
   | Add c i => reg_add (c, i) l
   | Remove c i => reg_remove (c, i) l
   end.
-Definition registered (h : list smop) : list (N * N) := fold_left reg_step h [].
+Definition registered (h : list smop) : list (ct * N) := fold_left reg_step h [].
 (* some id is registered for crontab c *)
-Definition has_binding (c : N) (l : list (N * N)) : bool := existsb (fun q => N.eqb (fst q) c) l.
+Definition has_binding (c : ct) (l : list (ct * N)) : bool := existsb (fun q => ct_eqb (fst q) c) l.
 
 (* ---- what enabling / disabling a hook's schedule bindings means for the registry ---- *)
 Definition induced (hooks : list (list binding)) (o : op) : list smop :=
@@ -34,7 +41,7 @@ Definition induced (hooks : list (list binding)) (o : op) : list smop :=
   | ORemove c i => [Remove c i]
   | OEnable h => map (fun b => Add (b_crontab b) (b_id b)) (nth (N.to_nat h) hooks [])
   | ODisable h => map (fun b => Remove (b_crontab b) (b_id b)) (nth (N.to_nat h) hooks [])
-  | OFire _ => []
+  | OFire _ | OTick _ | OTickAll => []
   end.
 
 (* ---- what a firing must produce ---- *)
@@ -43,8 +50,17 @@ Definition induced (hooks : list (list binding)) (o : op) : list smop :=
 Definition info_of_binding (b : binding) : info :=
   mkInfo (b_name b) (b_group b) (b_af b) (b_snaps b) (b_queue b)
          (b_name b) true (b_snaps b) (b_group b).
-Definition expected_infos (bs : list binding) (enabled : bool) (c : N) : list info :=
-  if enabled then map info_of_binding (filter (fun b => N.eqb (b_crontab b) c) bs) else [].
+(* the task for hook h made from binding b: b's queue, name, group, allowFailure, and a
+   binding context with b's name, snapshot list and group *)
+Definition task_of_binding (h : N) (b : binding) : stask :=
+  mkSTask h (b_queue b) (b_name b) (b_group b) (b_af b) (b_name b) (b_snaps b) (b_group b).
+Definition expected_infos (bs : list binding) (enabled : bool) (c : ct) : list info :=
+  if enabled then map info_of_binding (filter (fun b => ct_eqb (b_crontab b) c) bs) else [].
+(* a round in which every crontab that is still firing fires once: one task for every
+   enabled binding whose crontab fires, i.e. is parsable and has a registered id *)
+Definition fires (valid : ct -> bool) (reg : list (ct * N)) (c : ct) : bool := valid c && has_binding c reg.
+Definition expected_round (valid : ct -> bool) (reg : list (ct * N)) (bs : list binding) (enabled : bool) : list info :=
+  if enabled then map info_of_binding (filter (fun b => fires valid reg (b_crontab b)) bs) else [].
 
 Definition ns_eqb : list N -> list N -> bool := list_eqb N.eqb.
 Definition info_eqb (a b : info) : bool :=
@@ -75,12 +91,19 @@ Fixpoint nodupb (l : list N) : bool :=
 Definition is_nil {A} (l : list A) : bool := match l with [] => true | _ :: _ => false end.
 
 (* one hook: its binding ids are distinct (they are uuids; otherwise nothing is claimed) *)
-Definition check_hook (c : N) (bs : list binding) (enabled : bool) (f : bool * list info) : bool :=
-  if nodupb (map b_id bs) then
-    let e := expected_infos bs enabled c in
-    Bool.eqb (fst f) (negb (is_nil e)) && is_perm (snd f) e
-  else true.
-Fixpoint check_fire (c : N) (hooks : list (list binding)) (en : list bool)
+Definition check_answer (bs : list binding) (e : list info) (f : bool * list info) : bool :=
+  if nodupb (map b_id bs) then Bool.eqb (fst f) (negb (is_nil e)) && is_perm (snd f) e else true.
+Definition check_hook (c : ct) (bs : list binding) (enabled : bool) (f : bool * list info) : bool :=
+  check_answer bs (expected_infos bs enabled c) f.
+Fixpoint check_round (valid : ct -> bool) (reg : list (ct * N)) (hooks : list (list binding)) (en : list bool)
+         (f : list (bool * list info)) : bool :=
+  match hooks, en, f with
+  | [], [], [] => true
+  | bs :: hr, e :: er, x :: fr =>
+      check_answer bs (expected_round valid reg bs e) x && check_round valid reg hr er fr
+  | _, _, _ => false
+  end.
+Fixpoint check_fire (c : ct) (hooks : list (list binding)) (en : list bool)
          (f : list (bool * list info)) : bool :=
   match hooks, en, f with
   | [], [], [] => true
@@ -90,15 +113,15 @@ Fixpoint check_fire (c : N) (hooks : list (list binding)) (en : list bool)
 
 (* cron entries: a valid crontab has exactly one entry while some id is registered for
    it, none otherwise; an unparsable crontab never has one *)
-Definition count_fires (c : N) (cr : list (N * N)) : nat :=
-  length (filter (fun e => N.eqb (snd e) c) cr).
-Definition check_cron (valid : N -> bool) (alphabet : list N) (reg : list (N * N)) (o : obs) : bool :=
+Definition count_fires (c : ct) (cr : list (N * ct)) : nat :=
+  length (filter (fun e => ct_eqb (snd e) c) cr).
+Definition check_cron (valid : ct -> bool) (alphabet : list ct) (reg : list (ct * N)) (o : obs) : bool :=
   forallb (fun c => Nat.eqb (count_fires c (o_cron o))
                             (if valid c && has_binding c reg then 1 else 0)%nat) alphabet.
 
 (* ---- the predicate, step by step along the operations ---- *)
 (* spec state: registry and, per hook, whether its schedule bindings are enabled *)
-Definition spec_state := (list (N * N) * list bool)%type.
+Definition spec_state := (list (ct * N) * list bool)%type.
 Definition spec_step (hooks : list (list binding)) (st : spec_state) (o : op) : spec_state :=
   (fold_left reg_step (induced hooks o) (fst st),
    match o with
@@ -116,6 +139,12 @@ Fixpoint P_from (i : input) (st : spec_state) (ops : list op) (os : list obs) : 
       check_cron (valid_of (i_invalid i)) (i_alphabet i) (fst st') ob
       && match o with
          | OFire c => check_fire c (i_hooks i) (snd st') (o_fire ob)
+         (* the n-th cron entry fires: a firing of the crontab it sends *)
+         | OTick n => match nth_error (o_cron ob) (N.to_nat n) with
+                      | Some (_, c) => check_fire c (i_hooks i) (snd st') (o_fire ob)
+                      | None => is_nil (o_fire ob)
+                      end
+         | OTickAll => check_round (valid_of (i_invalid i)) (fst st') (i_hooks i) (snd st') (o_fire ob)
          | _ => true
          end
       && P_from i st' ops' os'
